@@ -75,6 +75,79 @@ def cls_for(name):
     return _dummy_classes[name]
 
 
+class Opaque(Exception):
+    """exception raised by a stubbed abstract callee in replays / searches"""
+
+
+class Source:
+    """Where native input values and the outcomes of abstract calls come from."""
+
+    def value(self, name, kind):
+        raise NotImplementedError
+
+    def outcome(self, evname):
+        return 'ret'
+
+    def __call__(self, name, kind):
+        return self.value(name, kind)
+
+
+class FnSource(Source):
+    def __init__(self, fn, outcomes=None):
+        self.fn = fn
+        self.outcomes = outcomes or {}
+        self.counts = {}
+
+    def value(self, name, kind):
+        return self.fn(name, kind)
+
+    def outcome(self, evname):
+        seq = self.outcomes.get(evname)
+        n = self.counts.get(evname, 0)
+        self.counts[evname] = n + 1
+        if seq is None or n >= len(seq):
+            return 'ret'
+        return seq[n]
+
+
+class RandomSource(Source):
+    def __init__(self, gen, contract, raise_p=0.25):
+        self.g = gen
+        self.c = contract
+        self.sofar = {}
+        self.raise_p = raise_p
+        self.script = []
+
+    def value(self, name, kind):
+        cg = getattr(self.c, 'native_gens', {}).get(name)
+        if cg is not None:
+            v = cg(self.g, self.sofar)
+        elif isinstance(kind, K.Kind):
+            v = self.g.of(kind, hint='name' if 'name' in name else None)
+        else:
+            raise ValueError(f'search cannot generate {kind!r}')
+        self.sofar[name] = v
+        return v
+
+    def outcome(self, evname):
+        o = 'raise' if self.g.r.random() < self.raise_p else 'ret'
+        self.script.append((evname, o))
+        return o
+
+
+def outcomes_from_tags(tags):
+    """path tags like 'data.load:raise', 'run:ret' -> {evname: [outcome, ...]} in call order"""
+    out = {}
+    for t in tags:
+        if ':' not in t or t.startswith(('exit:', 'loop', 'comprehension')):
+            continue
+        ev, o = t.rsplit(':', 1)
+        if o in ('T', 'F'):
+            continue
+        out.setdefault(ev, []).append(o)
+    return out
+
+
 class Stub:
     """Native stand-in for an abstract object: attributes from the value source, methods scripted."""
 
@@ -87,10 +160,13 @@ class Stub:
         d['_counts'] = {}
         for f, v in (fields or {}).items():
             d[f] = v
+        d['_dyn'] = {}
         for pn, p in iface.props.items():
             if pn in d:
                 continue
-            if p.const is not None:
+            if p.native is not None:
+                d['_dyn'][pn] = p.native
+            elif p.const is not None:
                 d[pn] = p.const
             elif isinstance(p.kind, dsl.Abs):
                 sub = p.kind
@@ -101,25 +177,42 @@ class Stub:
     def __getattr__(self, attr):
         d = object.__getattribute__(self, '__dict__')
         iface = d['_iface']
+        if attr in d['_dyn']:
+            return d['_dyn'][attr](self)
         if attr in iface.methods:
             m = iface.methods[attr]
 
             def call(*args, **kw):
                 if m.field is not None:
                     return d[m.field]
-                if m.native is not None:
-                    return m.native(self, *args, **kw)
+                evname = f'{d["_name"]}.{attr}'
+                if m.raises:
+                    o = d['_source'].outcome(evname) if hasattr(d['_source'], 'outcome') else 'ret'
+                    if o != 'ret':
+                        if m.event:
+                            d['_log'].append((attr, args, None, 'raise'))
+                        raise make_exc(o, evname)
                 n = d['_counts'].get(attr, 0)
                 d['_counts'][attr] = n + 1
-                key = f'{d["_name"]}.{attr}' if m.pure else f'{d["_name"]}.{attr}#{n}'
                 ret = None
-                if isinstance(m.ret, K.Kind):
-                    ret = d['_source'](key, m.ret)
+                if m.native is not None:
+                    ret = m.native(self, *args, **kw)
+                elif isinstance(m.ret, K.Kind):
+                    memo = d.setdefault('_pure', {})
+                    if m.pure and attr in memo:
+                        ret = memo[attr]
+                    else:
+                        key = f'{evname}#{1 if m.pure else n}'
+                        ret = d['_source'](key, m.ret)
+                        memo[attr] = ret
                 if m.event:
-                    d['_log'].append((attr, args, ret))
+                    d['_log'].append((attr, args, ret, 'ret'))
                 return ret
             return call
         raise AttributeError(attr)
+
+    def __bool__(self):
+        return True
 
 
 # (Stub is used by NativeInputs for dsl.Abs shapes)
@@ -420,6 +513,21 @@ class NativeInputs:
 # running one concrete case
 # =============================================================================================
 
+def make_exc(outcome, evname):
+    import builtins
+    if outcome in ('raise', 'Opaque'):
+        return Opaque(evname)
+    cls = getattr(builtins, outcome, None)
+    if isinstance(cls, type) and issubclass(cls, BaseException):
+        return cls(evname)
+    if ':' in outcome:
+        try:
+            return real_class(outcome)(evname)
+        except Exception:
+            pass
+    return Opaque(evname)
+
+
 class Patches:
     def __init__(self):
         self.saved = []
@@ -441,7 +549,7 @@ class Patches:
         self.saved = []
 
 
-def install_callee_contracts(contract, patches, log):
+def install_callee_contracts(contract, patches, log, source=None):
     """Replace each callee that the contract takes by contract with its contract (spec function)."""
     cm = contract.module.py
     for key, spec in contract.callees.items():
@@ -451,19 +559,30 @@ def install_callee_contracts(contract, patches, log):
             owner, name, raw = real_attr(key)
         except (AttributeError, KeyError, ModuleNotFoundError):
             continue
+        evname = spec.event or key.split(':')[1]
         if spec.spec:
             fn = getattr(cm, spec.spec)
-        elif spec.native is not None if hasattr(spec, 'native') else False:
-            fn = spec.native
+        elif isinstance(spec.ret, K.Kind) or spec.ret is None:
+            counter = {'n': 0}
+
+            def fn(*a, _ev=evname, _spec=spec, _c=counter, **k):
+                _c['n'] += 1
+                if _spec.ret is None:
+                    return None
+                return source(f'{_ev}#{_c["n"] - 1}', _spec.ret)
         else:
-            continue   # an abstract result: the scripted value source provides it (see scripted stubs)
-        evname = spec.event or key.split(':')[1]
+            continue
 
         def make(fn=fn, evname=evname, spec=spec):
             def stub(*a, **k):
+                if spec.raises:
+                    o = source.outcome(evname) if hasattr(source, 'outcome') else 'ret'
+                    if o != 'ret':
+                        log.append((evname, a, None, 'raise'))
+                        raise make_exc(o if o != 'raise' else spec.raises[0], evname)
                 r = fn(*a, **k)
                 if spec.event is not None or not spec.pure:
-                    log.append((evname, a, r))
+                    log.append((evname, a, r, 'ret'))
                 return r
             return stub
         stub = make()
@@ -483,7 +602,7 @@ def call_by_name(fn, available):
     return fn(*[available[p] for p in params])
 
 
-def run_case(contract, values, log=None):
+def run_case(contract, values, log=None, source=None):
     """Run the real target on native inputs; returns dict(outcome, result, raised, clause results)."""
     cm = contract.module.py
     patches = Patches()
@@ -506,7 +625,7 @@ def run_case(contract, values, log=None):
             except Exception:
                 olds[f'old_{n}'] = v
         target = real_callable(contract.target)
-        install_callee_contracts(contract, patches, log)
+        install_callee_contracts(contract, patches, log, source)
         names = contract.call if contract.call is not None else list(contract.inputs.keys())
         args = [values[n] for n in names]
         kwargs = {p: values[n] for p, n in contract.kwargs.items()}
@@ -585,7 +704,7 @@ def exc_name(e):
 
 class TraceLog:
     def __init__(self, log):
-        self.events = list(log)
+        self.events = [tuple(e) + ('ret',) * (4 - len(e)) if len(e) < 4 else tuple(e) for e in log]
 
     def count(self, name, recv=None):
         return sum(1 for e in self.events if e[0] == name)
@@ -608,6 +727,15 @@ class TraceLog:
 
     def names(self):
         return tuple(e[0] for e in self.events)
+
+    def returned(self, name, recv=None):
+        return sum(1 for e in self.events if e[0] == name and e[3] == 'ret')
+
+    def arg(self, name, i, nth=0, recv=None):
+        return [e for e in self.events if e[0] == name][nth][1][i]
+
+    def ret(self, name, nth=0, recv=None):
+        return [e for e in self.events if e[0] == name][nth][2]
 
     @property
     def length(self):
@@ -659,15 +787,8 @@ def search(contract, clause_names, seed, budget, per_case=None, seconds=None):
         if seconds is not None and time.time() - t0 > seconds:
             break
         g = Gen(seed * 1000003 + i)
-        src_vals = {}
-
-        def source(name, kind, g=g, src_vals=src_vals):
-            if isinstance(kind, K.Kind):
-                gen = getattr(contract, 'native_gens', {}).get(name)
-                v = gen(g, src_vals) if gen else g.of(kind, hint='name' if 'name' in name else None)
-                src_vals[name] = v
-                return v
-            raise ValueError(f'search cannot generate {kind!r}')
+        source = RandomSource(g, contract)
+        src_vals = source.sofar
         try:
             ni = NativeInputs(contract, source)
             vals = ni.build_all()
@@ -675,7 +796,7 @@ def search(contract, clause_names, seed, budget, per_case=None, seconds=None):
             return None, {'tried': 0, 'valid': 0, 'unsupported': True}
         tried += 1
         try:
-            out = run_case(contract, vals, ni.log)
+            out = run_case(contract, vals, ni.log, source)
         except HarnessGap:
             continue
         except Exception as e:   # harness problem, not a verdict
@@ -686,6 +807,6 @@ def search(contract, clause_names, seed, budget, per_case=None, seconds=None):
         bad = [c for c, ok in out['clauses'].items() if ok is not True and (not clause_names or c in clause_names)]
         if bad:
             found = {'inputs': {k_: _short(v, 2000) for k_, v in src_vals.items()}, 'raw': src_vals, 'out': out, 'failed': bad,
-                     'regen': seed * 1000003 + i}
+                     'regen': seed * 1000003 + i, 'script': list(source.script)}
             break
     return found, {'tried': tried, 'valid': valid}
